@@ -15,6 +15,7 @@ package main
 import (
 	"bytes"
 	"context"
+	"encoding/binary"
 	"errors"
 	"fmt"
 	"io"
@@ -51,10 +52,18 @@ type e2eCluster struct {
 	bootstrap int32
 	// cut responses: while a broker is in cutLO (cutOF), every ListOffsets (OffsetFetch) response it
 	// produces is written up to byte k only and the connection is then closed
-	cutLO     map[int32]int
-	cutOF     map[int32]int
-	cutFrame  int // length of the last frame subjected to a cut (4-byte size prefix included)
-	ctrlDials int // dials of the bootstrap address so far (the first one is the Transport's control connection)
+	cutLO    map[int32]int
+	cutOF    map[int32]int
+	cutFrame int // length of the last frame subjected to a cut (4-byte size prefix included)
+	// version sweep: the ApiVersions answer pins these maxima; the four query APIs are answered with
+	// frames laid out BY HAND for the version of the request (versions.go), not with the library's encoder
+	hand      bool
+	maxVer    map[protocol.ApiKey]int16
+	throttle  int32
+	racks     bool
+	groupErr  map[string]int16
+	verSeen   map[protocol.ApiKey]int16 // version of the last request seen per api
+	ctrlDials int                       // dials of the bootstrap address so far (the first one is the Transport's control connection)
 }
 
 const e2eGhostLeader = 77
@@ -99,18 +108,28 @@ func (e *e2eCluster) serve(id int32, c net.Conn) {
 		e.mu.Lock()
 		switch m := msg.(type) {
 		case *apiversions.Request:
+			mv := func(k protocol.ApiKey, def int16) int16 {
+				if v, ok := e.maxVer[k]; ok {
+					return v
+				}
+				return def
+			}
 			res = &apiversions.Response{ApiKeys: []apiversions.ApiKeyResponse{
-				{ApiKey: int16(protocol.ListOffsets), MinVersion: 1, MaxVersion: 5},
-				{ApiKey: int16(protocol.Metadata), MinVersion: 0, MaxVersion: 8},
-				{ApiKey: int16(protocol.OffsetCommit), MinVersion: 0, MaxVersion: 7},
-				{ApiKey: int16(protocol.OffsetFetch), MinVersion: 0, MaxVersion: 5},
+				{ApiKey: int16(protocol.ListOffsets), MinVersion: 1, MaxVersion: mv(protocol.ListOffsets, 5)},
+				{ApiKey: int16(protocol.Metadata), MinVersion: 0, MaxVersion: mv(protocol.Metadata, 8)},
+				{ApiKey: int16(protocol.OffsetCommit), MinVersion: 0, MaxVersion: mv(protocol.OffsetCommit, 7)},
+				{ApiKey: int16(protocol.OffsetFetch), MinVersion: 0, MaxVersion: mv(protocol.OffsetFetch, 5)},
 				{ApiKey: int16(protocol.FindCoordinator), MinVersion: 0, MaxVersion: 2},
 				{ApiKey: int16(protocol.ApiVersions), MinVersion: 0, MaxVersion: 2},
 			}}
 		case *metadata.Request:
-			r := &metadata.Response{ClusterID: "e2e", ControllerID: int32(e.nb - 1)}
+			r := &metadata.Response{ClusterID: "e2e", ControllerID: int32(e.nb - 1), ThrottleTimeMs: e.throttle}
 			for b := 0; b < e.nb; b++ {
-				r.Brokers = append(r.Brokers, metadata.ResponseBroker{NodeID: int32(b), Host: e2eHost(b), Port: 9092})
+				rb := metadata.ResponseBroker{NodeID: int32(b), Host: e2eHost(b), Port: 9092}
+				if e.racks {
+					rb.Rack = fmt.Sprintf("rack-%d", b%2)
+				}
+				r.Brokers = append(r.Brokers, rb)
 			}
 			t := metadata.ResponseTopic{Name: e.topic}
 			for p, st := range e.parts {
@@ -138,7 +157,7 @@ func (e *e2eCluster) serve(id int32, c net.Conn) {
 				return // the deferred Close drops the connection with the request unanswered
 			}
 			e.asked[id]++
-			r := &listoffsets.Response{}
+			r := &listoffsets.Response{ThrottleTimeMs: e.throttle}
 			for _, t := range m.Topics {
 				rt := listoffsets.ResponseTopic{Topic: t.Topic}
 				for _, p := range t.Partitions {
@@ -149,10 +168,12 @@ func (e *e2eCluster) serve(id int32, c net.Conn) {
 			res = r
 		case *offsetfetch.Request:
 			e.asked[id]++
-			r := &offsetfetch.Response{}
+			r := &offsetfetch.Response{ThrottleTimeMs: e.throttle}
 			owner := e.coord[m.GroupID] == id
 			if !owner {
 				r.ErrorCode = 16
+			} else {
+				r.ErrorCode = e.groupErr[m.GroupID]
 			}
 			for _, t := range m.Topics {
 				rt := offsetfetch.ResponseTopic{Name: t.Name}
@@ -164,7 +185,7 @@ func (e *e2eCluster) serve(id int32, c net.Conn) {
 			res = r
 		case *offsetcommit.Request:
 			e.asked[id]++
-			r := &offsetcommit.Response{}
+			r := &offsetcommit.Response{ThrottleTimeMs: e.throttle}
 			owner := e.coord[m.GroupID] == id
 			for _, t := range m.Topics {
 				rt := offsetcommit.ResponseTopic{Name: t.Name}
@@ -189,6 +210,21 @@ func (e *e2eCluster) serve(id int32, c net.Conn) {
 		default:
 			e.mu.Unlock()
 			return
+		}
+		if e.verSeen != nil {
+			e.verSeen[msg.ApiKey()] = version
+		}
+		if e.hand {
+			if body := handEncode(version, res); body != nil {
+				e.mu.Unlock()
+				frame := make([]byte, 8, 8+len(body))
+				binary.BigEndian.PutUint32(frame[0:], uint32(4+len(body)))
+				binary.BigEndian.PutUint32(frame[4:], uint32(corr))
+				if _, err := c.Write(append(frame, body...)); err != nil {
+					return
+				}
+				continue
+			}
 		}
 		cutAt := -1
 		switch msg.(type) {
@@ -267,7 +303,7 @@ func genE2E(r *rand.Rand) (*e2eCluster, int) {
 	e := &e2eCluster{nb: 2 + r.Intn(3), topic: []string{"orders", "e2e-topic", "t"}[r.Intn(3)],
 		coord: map[string]int32{}, committed: map[string]map[int32]commitState{}, asked: map[int32]int{},
 		refuse: map[int32]bool{}, dropOnLO: map[int32]bool{}, ghost: map[int32]bool{}, hidden: map[int32]bool{},
-		cutLO: map[int32]int{}, cutOF: map[int32]int{}}
+		cutLO: map[int32]int{}, cutOF: map[int32]int{}, groupErr: map[string]int16{}}
 	np := 2 + r.Intn(5)
 	for p := 0; p < np; p++ {
 		st := &partState{leader: int32(r.Intn(e.nb)), epoch: int32(r.Intn(9)), start: int64(r.Intn(500))}
